@@ -1,0 +1,8 @@
+//go:build !verif
+// +build !verif
+
+package gocql
+
+// verifYield is a no-op unless the package is built with the "verif" tag
+// (deterministic-simulation yield points, see verif_on.go).
+func verifYield(point string, c *Conn, stream int) {}
